@@ -38,7 +38,7 @@ PROPS = {
                         "Go maps whose labels collide after encoding (int(1) and int64(1)) are outside the model"],
     },
     "C11": {
-        "modules": ["Cose.Props.C11"],
+        "modules": ["Cose.Props.C11", "Cose.Props.PrimShapeMac"],
         "families": ["prim:mac", "impl"],
         "spec_ops": ["prim.mac", "prim.macverify", "prim.mac2"],
         "extras": [{"name": "race", "pkg": "./race", "build_flags": ["-race"], "args": ["-seed", "{seed}", "-n", "{n}", "-only", "hmac,aesmac,MACer"],
@@ -52,7 +52,7 @@ PROPS = {
         "assumptions": ["SHA-2 output lengths are hypotheses of hmac_tag_length", "unforgeability of HMAC/CBC-MAC is not a theorem"],
     },
     "C12": {
-        "modules": ["Cose.Props.C12"],
+        "modules": ["Cose.Props.C12", "Cose.Props.PrimShapeAead"],
         "families": ["prim:aead", "impl", "api"],
         "spec_ops": ["prim.aead.enc", "prim.aead.dec", "prim.aead2"],
         "extras": [{"name": "race", "pkg": "./race", "build_flags": ["-race"], "args": ["-seed", "{seed}", "-n", "{n}", "-only", "aesgcm,aesccm,chacha,Encryptor"],
@@ -66,7 +66,7 @@ PROPS = {
         "assumptions": ["AEAD security (tag unforgeability) is not a theorem; uniqueness theorems reduce acceptance of a changed ciphertext to a tag collision"],
     },
     "C13": {
-        "modules": ["Cose.Props.C13"],
+        "modules": ["Cose.Props.C13", "Cose.Props.PrimShapeKdf"],
         "families": ["prim:kdf"],
         "spec_ops": ["prim.hkdf256", "prim.hkdf512", "prim.hkdfaes", "prim.hkdfaes.read"],
         "n_quick": 1500, "n_thorough": 60000,
@@ -180,7 +180,7 @@ PROPS = {
         "assumptions": ["signature correctness and unforgeability are not theorems"],
     },
     "C14": {
-        "modules": ["Cose.Props.C14"], "families": ["ecdh"], "spec_ops": ["ecdh.symmetric", "ecdh.derive"],
+        "modules": ["Cose.Props.C14", "Cose.Props.PrimShapeEcdh"], "families": ["ecdh"], "spec_ops": ["ecdh.symmetric", "ecdh.derive"],
         "extras": [{"name": "race", "pkg": "./race", "build_flags": ["-race"], "args": ["-seed", "{seed}", "-n", "{n}", "-only", "ecdh"],
                     "n_quick": 40, "n_thorough": 600, "timeout": 3000}],
         "n_quick": 300, "n_thorough": 20000,
